@@ -26,7 +26,7 @@ var longUni = "ééééééééééé" // 11 characters, 22 bytes: the threshold
 
 // strings that collide with what the serializer itself emits, plus ordinary ones
 var genStrs = []string{"", "a", "b", "k", "1", "90", "AQID", "default", "Default", "Sensitive", "Hash", "Binary", "Type", "Regexp",
-	"__ptype", "__pvalue", "__pref", longStr, longUni, "Sensitive [value redacted]", "é", "Verif::Pair", "Verif::Ints"}
+	"__ptype", "__pvalue", "__pref", longStr, longUni, "Sensitive [value redacted]", "é", "Verif::Pair", "Verif::Ints", "0-00:01:30.0"}
 var genInts = []int64{0, 1, -1, 42, math.MaxInt64, math.MinInt64}
 var genFloats = []float64{0, 1, -1.5, 1e21, math.SmallestNonzeroFloat64, math.Inf(1)}
 var genBins = [][]byte{{1, 2, 3}, {}, {0xff}, []byte("0123456789abcdefghijklmnop")}
@@ -35,7 +35,7 @@ var leafSrc = map[string][]string{
 	"rx":  {"a.*b", "", "[a-z]+/x", `\d+`},
 	"sv":  {"1.2.3", "1.0.0-rc1+b5", "0.0.0"},
 	"svr": {">=1.0.0 <2.0.0", "1.x", "~1.2.3", ">=1.0.0"},
-	"ts":  {"0", "90", "-5", "86400"},
+	"ts":  {"0-00:00:00.0", "0-00:01:30.0", "-0-00:00:05.0", "1-00:00:00.0", "0-00:00:01.5", "0-00:00:00.05", "-0-00:00:00.000000001"},
 	"tm":  {"2020-01-02T03:04:05.000006000 UTC", "1970-01-01T00:00:00.000000000 UTC"},
 	"uri": {"http://example.com/a?b=c#d", "file:///tmp/x", "urn:isbn:1", "http://user:pw@example.com:8080/p%20q?x=1&y=%2F#f"},
 	"ty": {"String", "Integer[1, 2]", "Array[String]", "Optional[Hash[String, Integer]]", "Type[Integer]",
@@ -44,12 +44,15 @@ var leafSrc = map[string][]string{
 	"td": {"Verif::Pair", "Verif::Ints", "Verif::Unit"},
 }
 
-// object type definitions no loader knows (implementation only: they travel as Pcore::ObjectType instances and are
-// registered by the deserializer)
+// object type definitions no loader knows: they travel as Pcore::ObjectType instances (the init hash is written into the
+// op for the model) and are registered by the deserializer
 var tdefSrc = []string{
 	`Object[{name => 'Verif::Fresh', attributes => {'z' => Integer}}]`,
 	`Object[{attributes => {'z' => Integer}}]`,
 	`Object[{name => 'Verif::Fresh2', parent => Verif::Pair, attributes => {'c' => {'type' => String, 'value' => 'x'}}}]`,
+	`Object[{name => 'Verif::Fresh3', attributes => {'a' => {'type' => Array[Integer], 'value' => [1, 2]}, 'b' => {'type' => Optional[String], 'value' => undef}}, equality => ['a']}]`,
+	`Object[{name => 'Verif::Fresh4', attributes => {'k' => {'type' => Integer, 'kind' => 'constant', 'value' => 3}, 'n' => Verif::Ints}}]`,
+	`Object[{name => 'Verif::Fresh5', attributes => {'h' => {'type' => Hash[String, Integer], 'value' => {'x' => 1}}}, equality_include_type => false}]`,
 }
 
 // further sources for the stand-alone codec check
@@ -57,7 +60,7 @@ var codecExtra = [][2]string{
 	{"rx", `a/b`}, {"rx", `\\/`}, {"rx", "(?i)x"}, {"rx", "é+"}, {"rx", "a\nb"}, {"rx", "^$"}, {"rx", `[/]`}, {"rx", `'"`},
 	{"uri", "http://user:pw@example.com:8080/p%20q?x=1&y=%2F#f"}, {"uri", "http://[::1]:80/"}, {"uri", "mailto:a@b.c"},
 	{"uri", "/relative/path"}, {"uri", "?q"}, {"uri", "http://example.com/é"}, {"uri", "a:b:c"},
-	{"ts", "9223372036"}, {"ts", "-9223372036"},
+	{"ts", "106751-23:47:16.854775807"}, {"ts", "-106751-23:47:16.854775807"},
 	{"tm", "0001-01-01T00:00:00.000000000 UTC"}, {"tm", "9999-12-31T23:59:59.999999999 UTC"}, {"tm", "2020-02-29T12:00:00.000000000 UTC"},
 	{"ty", "Callable[[String, Integer], Float]"}, {"ty", "Struct[{Optional['a'] => String, 'b' => Integer}]"}, {"ty", "Tuple[String, Integer, 1, 3]"},
 	{"ty", `Enum['it\'s', 'a\\b']`}, {"ty", `Pattern[/a\/b/]`}, {"ty", "String[1, 2]"}, {"ty", "Float[1.5, 2.5]"}, {"ty", "Sensitive[String]"},
@@ -100,6 +103,10 @@ func (g *vgen) leaf() *node {
 	k := leafKinds[g.r.Intn(len(leafKinds))]
 	src := leafSrc[k]
 	return g.keep(&node{kind: "l", id: g.id(), lk: k, s: src[g.r.Intn(len(src))]})
+}
+
+func (g *vgen) tdef() *node {
+	return g.keep(&node{kind: "tdef", id: g.id(), s: tdefSrc[g.r.Intn(len(tdefSrc))]})
 }
 
 func (g *vgen) bin() *node {
@@ -169,6 +176,9 @@ func (g *vgen) value(depth int, key bool) *node {
 	case 8:
 		if key {
 			return g.scalar()
+		}
+		if g.r.Intn(5) == 0 {
+			return g.tdef()
 		}
 		return g.object(depth)
 	default:
@@ -244,7 +254,7 @@ func hardKey(n *node, seen map[*node]bool) bool {
 
 // implOnly: the value holds something the model does not cover
 func implOnly(n *node) bool {
-	if n.kind == "tdef" {
+	if n.kind == "tdef" && n.init == nil {
 		return true
 	}
 	for _, k := range n.kids {
@@ -287,7 +297,13 @@ func (n *node) write(sb *strings.Builder, seen map[*node]bool) {
 	case "l":
 		sb.WriteString("(l " + id + " " + n.lk + " " + hx(n.s) + " " + hx(n.disp) + ")")
 	case "tdef":
-		sb.WriteString("(tdef " + id + " " + hx(n.s) + " " + hx(n.disp) + ")")
+		if n.init != nil {
+			sb.WriteString("(tdef " + id + " " + hx(n.s) + " " + hx(n.disp) + " ")
+			n.init.write(sb, map[*node]bool{})
+		} else {
+			sb.WriteString("(tdefx " + id + " " + hx(n.s) + " " + hx(n.disp))
+		}
+		sb.WriteByte(')')
 	case "sn", "a":
 		sb.WriteString("(" + n.kind + " " + id)
 		for _, k := range n.kids {
@@ -328,6 +344,15 @@ func finish(c px.Context, root *node) (text string, ok bool) {
 	for n, v := range b.memo {
 		if n.kind == "l" || n.kind == "o" || n.kind == "tdef" {
 			n.disp = v.String()
+		}
+		if n.kind == "tdef" {
+			next := int64(1000)
+			n.init = nil
+			if ot, ok := v.(px.ObjectType); ok {
+				if tree, ok := valueNode(ot.(px.PuppetObject).InitHash(), &next, freshType(c)); ok {
+					n.init = tree
+				}
+			}
 		}
 	}
 	var sb strings.Builder
@@ -438,7 +463,7 @@ func fixedValues() []string {
 		"(a 1 (l 2 td " + h("Verif::Pair") + " x) (= 2) " + s("Verif::Pair") + " (l 3 td " + h("Verif::Ints") + " x) " + s("Type") + " (l 4 ty " + h("String") + " x))",
 	}
 	for _, t := range tdefSrc {
-		out = append(out, "(tdef 1 "+h(t)+" x)", "(a 1 (tdef 2 "+h(t)+" x) (= 2))")
+		out = append(out, "(tdefx 1 "+h(t)+" x)", "(a 1 (tdefx 2 "+h(t)+" x) (= 2) "+s("Pcore::ObjectType")+" "+s("attributes")+")")
 	}
 	i := 0
 	for _, k := range leafKinds {
@@ -530,7 +555,14 @@ func gen(g *core.G) {
 	}
 	r := g.Rng
 	for i := 0; i < 300*g.Scale; i++ {
-		g.Emit("@codec ts " + h(strconv.FormatInt(r.Int63n(4000000000)-2000000000, 10)))
+		span := time.Duration(r.Int63n(4000000000)-2000000000) * time.Second
+		switch r.Intn(3) {
+		case 0:
+			span += time.Duration(r.Int63n(1000000000))
+		case 1:
+			span += time.Duration(r.Int63n(1000)) * time.Millisecond
+		}
+		g.Emit("@codec ts " + h(fmtSpan(span)))
 		t := time.Unix(r.Int63n(8000000000)-4000000000, int64(r.Intn(1000000000))).UTC()
 		g.Emit("@codec tm " + h(t.Format("2006-01-02T15:04:05.000000000")+" UTC"))
 		ver := fmt.Sprintf("%d.%d.%d", r.Intn(30), r.Intn(30), r.Intn(30))
@@ -545,6 +577,29 @@ func gen(g *core.G) {
 		lo, hi := fmt.Sprintf("%d.%d.%d", r.Intn(10), r.Intn(30), r.Intn(30)), fmt.Sprintf("%d.%d.%d", 10+r.Intn(10), r.Intn(30), r.Intn(30))
 		rng := []string{">=" + ver, "<" + ver, ">" + lo + " <=" + hi, "~" + hi, "^" + hi, lo + " - " + hi, lo + " || " + hi, fmt.Sprintf("%d.x", r.Intn(9)), fmt.Sprintf("%d.%d.x", r.Intn(9), r.Intn(9))}[r.Intn(9)]
 		g.Emit("@codec svr " + h(rng))
+	}
+	// the Timespan codec against its model: canonical and non-canonical texts of the default format, and near misses
+	for _, src := range []string{"0-00:00:00.0", "1-1:2:3.4", "0-99:00:00.0", "00-00:00:00.5", "-0-00:00:00.0", "0-00:00:00.000000001",
+		"0-00:00:00.0000000001", "0-00:00:00.", "0-000:00:00.0", "0-00:00:00.0x", " 0-00:00:00.0", "0-00:00:0a.0", "--1-00:00:00.0",
+		"106751-23:47:16.854775807", "0-0:0:0.0"} {
+		g.Emit("span " + h(src))
+	}
+	for i := 0; i < 400*g.Scale; i++ {
+		src := ""
+		if r.Intn(3) == 0 {
+			src = "-"
+		}
+		two := func() string {
+			if r.Intn(4) == 0 {
+				return strconv.Itoa(r.Intn(10))
+			}
+			return fmt.Sprintf("%02d", r.Intn(100))
+		}
+		frac := strconv.FormatInt(r.Int63n(1000000000), 10)
+		frac = strings.Repeat("0", r.Intn(10-len(frac))) + frac
+		frac = frac[:1+r.Intn(len(frac))]
+		src += strconv.Itoa(r.Intn(100000)) + "-" + two() + ":" + two() + ":" + two() + "." + frac
+		g.Emit("span " + h(src))
 	}
 	// malformed ops (outside the quantifier; both sides must answer bad-op)
 	for _, v := range []string{"(= 1)", "(a 1 (= 1))", "(a 1 (a 1))", "(h 1 ((i 1)))", "(q)", "(l 1 zz x x)"} {
